@@ -27,6 +27,7 @@ def oracle (prop callee : String) (src : Dyn) (impl : Outcome Dyn) : Option Stri
     | some .none => none
     | some t => CastSpec.typedViolation t src impl
     | none => none
+  else if prop == "C11" then CastSpec.binaryViolation callee (promised callee) src impl
   else none
 
 def runCase (prop callee srcS extS implS : String) : Result :=
@@ -41,13 +42,41 @@ def runCase (prop callee srcS extS implS : String) : Result :=
       let isPanic := match impl with | .panic _ => true | _ => false
       let d := if isPanic then !(ms.startsWith "panic") else ms != is
       let p := oracle prop callee src impl
+      let abstain := ms == "err EXT"
       match d, p with
       | false, none => ⟨"S", ""⟩
+      | true, none => if abstain then ⟨"X", s!"{callee}({srcS}): model abstains (stdlib answer outside its domain)"⟩
+                      else ⟨"D", s!"{callee}({srcS}) impl [{implS}] model [{ms}]"⟩
       | _, _ =>
         let tag := (if d then "D" else "") ++ (if p.isSome then "P" else "")
         ⟨tag, s!"{callee}({srcS}) impl [{implS}] model [{ms}]" ++
           (match p with | some c => s!" violates {prop}: key={c}" | none => "")⟩
   | none, _ => ⟨"B", s!"cannot parse source: {srcS}"⟩
   | _, none => ⟨"B", s!"cannot parse impl result: {implS}"⟩
+
+/-- rt \t C12 \t <via> \t <src> \t <ext> \t <impl text> \t <impl back> -/
+def runRT (prop via srcS extS textS backS : String) : Result :=
+  match Dyn.parse? srcS, parseOutcome textS with
+  | some src, some implText =>
+    let implBack : Option (Outcome Dyn) := if backS == "-" then none else parseOutcome backS
+    if backS != "-" && implBack.isNone then ⟨"B", s!"cannot parse back result: {backS}"⟩ else
+    let ext := parseExt extS
+    let mText := Cast.castNamed genTables ext via src
+    let mBack : Option (Outcome Dyn) :=
+      match mText with
+      | .ok t => some (Cast.castTo genTables ext (Cast.typeOf src) t)
+      | _ => none
+    let ms := showOutcome mText ++ " / " ++ (match mBack with | some b => showOutcome b | none => "-")
+    let is := showOutcome implText ++ " / " ++ (match implBack with | some b => showOutcome b | none => "-")
+    let d := ms != is
+    let p := if prop == "C12" then CastSpec.renderViolation via src implText implBack else none
+    match d, p with
+    | false, none => ⟨"S", ""⟩
+    | _, _ =>
+      let tag := (if d then "D" else "") ++ (if p.isSome then "P" else "")
+      ⟨tag, s!"{via}({srcS}) and back: impl [{is}] model [{ms}]" ++
+        (match p with | some c => s!" violates {prop}: key={c}" | none => "")⟩
+  | none, _ => ⟨"B", s!"cannot parse source: {srcS}"⟩
+  | _, none => ⟨"B", s!"cannot parse impl text: {textS}"⟩
 
 end Jl.Driver.CastCase
